@@ -5,7 +5,9 @@ package route
 // Binding of spec/QueryAuth.tla (property C25) to a real Router.
 //
 // One specification walk = one (router type, configured token, request token)
-// vector; each Eval step sends a GET for one /query/ route, in one format,
+// vector - the reference token in several lengths (8 ... 100 characters), the
+// request token derived from it (prefix / same prefix with a different tail at
+// several cut points, extension, case variant, ...); each Eval step sends a GET for one /query/ route, in one format,
 // over loopback HTTP to the mux that Router.LnS built, with a configuration
 // loaded by the real loader from YAML files (so QueryAuthToken, the rules,
 // the file ids and the hashes are real). Observed: a success status, and
@@ -35,11 +37,34 @@ import (
 )
 
 const (
-	c25Token       = "c25Tok-Secret-XyZ"
 	c25ShardAddr   = "http://c25-placement-marker:8081"
 	c25RulesMarker = "c25_rules_marker_field"
 	c25EnvName     = "c25env"
 )
+
+// c25Token is the reference token T(L) of the specification: L characters,
+// letters of both cases, digits and punctuation, no two neighbours alike.
+func c25Token(n int) string {
+	const alphabet = "c25TokSecretXyZ-aBdEfGhIjKlMnOpQrStUvW_0123456789"
+	b := make([]byte, n)
+	for i := range b {
+		b[i] = alphabet[(i*7+i/len(alphabet))%len(alphabet)]
+	}
+	return string(b)
+}
+
+// c25Differ returns n characters that differ from tok[from:from+n] position
+// by position (and a fixed filler beyond the end of tok).
+func c25Differ(tok string, from, n int) string {
+	b := make([]byte, n)
+	for i := range b {
+		b[i] = 'q'
+		if from+i < len(tok) && tok[from+i] == 'q' {
+			b[i] = 'r'
+		}
+	}
+	return string(b)
+}
 
 func c25SwapCase(s string) string {
 	return strings.Map(func(r rune) rune {
@@ -52,7 +77,7 @@ func c25SwapCase(s string) string {
 
 type c25EnvKey struct {
 	router string
-	cfg    string
+	cfgLen int // 0: no QueryAuthToken configured
 }
 
 type c25Env struct {
@@ -64,13 +89,13 @@ type c25Env struct {
 func c25NewEnv(dir string, k c25EnvKey) (*c25Env, error) {
 	var b strings.Builder
 	b.WriteString("General:\n  ConfigurationVersion: 2\nNetwork:\n  ListenAddr: 127.0.0.1:0\n  PeerListenAddr: 127.0.0.1:0\n")
-	if k.cfg == "set" {
-		fmt.Fprintf(&b, "Debugging:\n  QueryAuthToken: %s\n", c25Token)
+	if k.cfgLen > 0 {
+		fmt.Fprintf(&b, "Debugging:\n  QueryAuthToken: %q\n", c25Token(k.cfgLen))
 	}
 	rules := fmt.Sprintf("RulesVersion: 2\nSamplers:\n  __default__:\n    DynamicSampler:\n      SampleRate: 7\n      FieldList:\n        - %s\n  %s:\n    DynamicSampler:\n      SampleRate: 3\n      FieldList:\n        - %s\n",
 		c25RulesMarker, c25EnvName, c25RulesMarker)
-	cpath := filepath.Join(dir, fmt.Sprintf("c25-config-%s-%s.yaml", k.router, k.cfg))
-	rpath := filepath.Join(dir, fmt.Sprintf("c25-rules-%s-%s.yaml", k.router, k.cfg))
+	cpath := filepath.Join(dir, fmt.Sprintf("c25-config-%s-%d.yaml", k.router, k.cfgLen))
+	rpath := filepath.Join(dir, fmt.Sprintf("c25-rules-%s-%d.yaml", k.router, k.cfgLen))
 	if err := os.WriteFile(cpath, []byte(b.String()), 0o600); err != nil {
 		return nil, err
 	}
@@ -82,8 +107,8 @@ func c25NewEnv(dir string, k c25EnvKey) (*c25Env, error) {
 		return nil, fmt.Errorf("config loader refused the c25 configuration: %v", err)
 	}
 	want := ""
-	if k.cfg == "set" {
-		want = c25Token
+	if k.cfgLen > 0 {
+		want = c25Token(k.cfgLen)
 	}
 	if got := cfg.GetQueryAuthToken(); got != want {
 		return nil, fmt.Errorf("stale harness: loaded QueryAuthToken %q, wanted %q", got, want)
@@ -136,7 +161,34 @@ type c25Outcome struct {
 	Anomaly string `json:"anomaly,omitempty"`
 }
 
-func (e *c25Env) eval(route, format, cfgTok, reqTok string) (c25Outcome, error) {
+// c25RequestToken builds the request's token from the vector's description.
+// The second result is the header it travels in ("" = no header at all).
+func c25RequestToken(kind string, cut, n int) (string, string, error) {
+	tok := c25Token(n)
+	switch kind {
+	case "absent":
+		return "", "", nil
+	case "empty":
+		return "", types.QueryTokenHeader, nil
+	case "wrongheader":
+		return tok, types.APIKeyHeader, nil
+	case "other":
+		return "c25-something-else", types.QueryTokenHeader, nil
+	case "case":
+		return c25SwapCase(tok), types.QueryTokenHeader, nil
+	case "exact":
+		return tok, types.QueryTokenHeader, nil
+	case "prefix":
+		return tok[:cut], types.QueryTokenHeader, nil
+	case "sametail":
+		return tok[:cut] + c25Differ(tok, cut, n-cut), types.QueryTokenHeader, nil
+	case "extend":
+		return tok + c25Differ(tok, n, cut), types.QueryTokenHeader, nil
+	}
+	return "", "", fmt.Errorf("unknown request token kind %q", kind)
+}
+
+func (e *c25Env) eval(route, format string, cfgLen int, kind string, cut, n int) (c25Outcome, error) {
 	var path string
 	switch route {
 	case "trace":
@@ -154,28 +206,15 @@ func (e *c25Env) eval(route, format, cfgTok, reqTok string) (c25Outcome, error) 
 	if err != nil {
 		return c25Outcome{}, err
 	}
-	sent := ""
-	switch reqTok {
-	case "absent":
-	case "empty":
-		req.Header[types.QueryTokenHeader] = []string{""}
-	case "prefix":
-		sent = c25Token[:len(c25Token)-1]
-	case "suffix":
-		sent = c25Token + "x"
-	case "case":
-		sent = c25SwapCase(c25Token)
-	case "other":
-		sent = "c25-something-else"
-	case "wrongheader":
-		req.Header.Set(types.APIKeyHeader, c25Token)
-	case "exact":
-		sent = c25Token
-	default:
-		return c25Outcome{}, fmt.Errorf("unknown request token class %q", reqTok)
+	sent, header, err := c25RequestToken(kind, cut, n)
+	if err != nil {
+		return c25Outcome{}, err
 	}
-	if sent != "" {
-		req.Header.Set(types.QueryTokenHeader, sent)
+	if header != "" {
+		req.Header[header] = []string{sent}
+	}
+	if kind != "exact" && kind != "wrongheader" && cfgLen > 0 && sent == c25Token(cfgLen) {
+		return c25Outcome{}, fmt.Errorf("stale harness: variant %s/%d of a %d-character token equals the token", kind, cut, n)
 	}
 	resp, err := e.srv.Client().Do(req)
 	if err != nil {
@@ -194,22 +233,27 @@ func (e *c25Env) eval(route, format, cfgTok, reqTok string) (c25Outcome, error) 
 		}
 	}
 	// a refusal must not hand out the configured token either (it may echo what the client sent)
-	if cfgTok == "set" && !strings.Contains(sent, c25Token) && reqTok != "wrongheader" && strings.Contains(text, c25Token) {
+	if cfgLen > 0 && header != types.APIKeyHeader && !strings.Contains(sent, c25Token(cfgLen)) && strings.Contains(text, c25Token(cfgLen)) {
 		o.Anomaly = "response contains the configured QueryAuthToken"
 	}
 	return o, nil
 }
 
 type c25Harness struct {
-	dir  string
-	envs map[c25EnvKey]*c25Env
-	cur  *c25Env
-	vec  map[string]any
-	outs []c25Outcome
+	dir    string
+	envs   map[c25EnvKey]*c25Env
+	cur    *c25Env
+	cfgLen int
+	vec    map[string]any
+	outs   []c25Outcome
 }
 
 func (h *c25Harness) Reset(init map[string]any) error {
-	k := c25EnvKey{router: verifkit.Str(init, "router"), cfg: verifkit.Str(init, "cfg")}
+	n := verifkit.Int(init, "len")
+	k := c25EnvKey{router: verifkit.Str(init, "router")}
+	if verifkit.Bool(init, "cfgSet") {
+		k.cfgLen = n
+	}
 	e, ok := h.envs[k]
 	if !ok {
 		var err error
@@ -219,7 +263,8 @@ func (h *c25Harness) Reset(init map[string]any) error {
 		h.envs[k] = e
 	}
 	h.cur = e
-	h.vec = map[string]any{"router": k.router, "cfg": k.cfg, "req": verifkit.Str(init, "req")}
+	h.cfgLen = k.cfgLen
+	h.vec = map[string]any{"router": k.router, "cfgSet": k.cfgLen > 0, "len": n, "kind": verifkit.Str(init, "kind"), "cut": verifkit.Int(init, "cut")}
 	h.outs = []c25Outcome{}
 	return nil
 }
@@ -228,7 +273,7 @@ func (h *c25Harness) Apply(a map[string]any) error {
 	if verifkit.Str(a, "name") != "Eval" {
 		return fmt.Errorf("unknown action %v", a)
 	}
-	o, err := h.cur.eval(verifkit.Str(a, "route"), verifkit.Str(a, "fmt"), h.vec["cfg"].(string), h.vec["req"].(string))
+	o, err := h.cur.eval(verifkit.Str(a, "route"), verifkit.Str(a, "fmt"), h.cfgLen, h.vec["kind"].(string), h.vec["cut"].(int), h.vec["len"].(int))
 	if err != nil {
 		return err
 	}
@@ -237,7 +282,11 @@ func (h *c25Harness) Apply(a map[string]any) error {
 }
 
 func (h *c25Harness) Project() (any, error) {
-	return map[string]any{"router": h.vec["router"], "cfg": h.vec["cfg"], "req": h.vec["req"], "outs": h.outs}, nil
+	out := map[string]any{"outs": h.outs}
+	for k, v := range h.vec {
+		out[k] = v
+	}
+	return out, nil
 }
 
 func TestVerifC25Query(t *testing.T) {
